@@ -23,6 +23,14 @@ LICENSE file or <http://www.boost.org/LICENSE_1_0.txt>
 
 namespace gdstk {
 
+#ifdef GDSTK_VERIF
+// Verification hook (off by default): called once per re-slicing iteration of
+// Polygon::fracture with (iteration, result.count, num_points, max_points,
+// cuts.count, pieces produced).  NULL means no monitor is attached.
+extern void (*gdstk_verif_fracture_step)(uint64_t, uint64_t, uint64_t, uint64_t, uint64_t,
+                                         uint64_t);
+#endif
+
 struct Polygon {
     Tag tag;
     Array<Vec2> point_array;
